@@ -122,8 +122,7 @@ func (c *Ctx) tr(x ast.Expr) Val {
 				return v
 			}
 			if gt, ok := c.E.W.Specs.GhostVars[x.Name]; ok && c.St != nil {
-				t := specType(gt)
-				return Val{t, []string{c.E.heapKey(c.St, "g:ghost."+x.Name, flatten(t)[0])}}
+				return c.E.ghostGet(c.St, x.Name, gt)
 			}
 			if v, ok := c.E.globalByName(c, x.Name); ok {
 				return v
@@ -143,6 +142,17 @@ func (c *Ctx) tr(x ast.Expr) Val {
 		return c.trCall(x)
 	case *ast.IndexExpr:
 		b := c.tr(x.X)
+		if mt, ok := b.T.Underlying().(*types.Map); ok {
+			var kv Val
+			if l, ok := litOf(x.Index); ok {
+				kv = strLit(l)
+			} else {
+				kv = c.tr(x.Index)
+			}
+			kid := mapKeyId(c.E, mt.Key(), kv)
+			_, v := c.E.mapGet(c.St, mt, b.C[0], kid)
+			return v
+		}
 		i := c.intT(x.Index)
 		switch {
 		case isString(b.T):
@@ -156,6 +166,7 @@ func (c *Ctx) tr(x ast.Expr) Val {
 			return c.E.sliceElem(c.St, sl.Elem(), b, i)
 		}
 		c.fail(x, "cannot index %s", b.T)
+	case *ast.KeyValueExpr:
 	case *ast.SliceExpr:
 		b := c.tr(x.X)
 		lo := "0"
@@ -409,6 +420,16 @@ func (c *Ctx) trCall(x *ast.CallExpr) Val {
 			out.C = append(out.C, ite(cond, a.C[i], b.C[i]))
 		}
 		return out
+	case "forallge":
+		// forallge(q, lo, body): for all q >= lo
+		id := args[0].(*ast.Ident)
+		lo := c.intT(args[1])
+		bv := c.E.freshName("q_" + id.Name)
+		inner := c.with(map[string]Val{id.Name: ival(bv)})
+		if c.Old != nil {
+			inner.Old = c.Old.with(map[string]Val{id.Name: ival(bv)})
+		}
+		return bval(fmt.Sprintf("(forall ((%s Int)) %s)", bv, imp(app("<=", lo, bv), inner.boolT(args[2]))))
 	case "forall", "exists":
 		id, ok := args[0].(*ast.Ident)
 		if !ok || len(args) != 4 {
@@ -429,11 +450,44 @@ func (c *Ctx) trCall(x *ast.CallExpr) Val {
 			inner.LoopEntry = o
 		}
 		body := inner.boolT(args[3])
+		// quantify over the absolute index of the first array access (select A (+ O k)):
+		// solvers match (select A j) reliably, (select A (+ O k)) not (DESIGN 4, memory notes)
+		if off, ok := firstOffset(body, bv); ok {
+			jv := bv + "a"
+			body = strings.ReplaceAll(body, "(+ "+off+" "+bv+")", jv)
+			body = replaceWord(body, bv, "(- "+jv+" "+off+")")
+			lo, hi = add(off, lo), add(off, hi)
+			bv = jv
+		}
 		rng := and(app("<=", lo, bv), app("<", bv, hi))
 		if name == "forall" {
 			return bval(fmt.Sprintf("(forall ((%s Int)) %s)", bv, imp(rng, body)))
 		}
 		return bval(fmt.Sprintf("(exists ((%s Int)) %s)", bv, and(rng, body)))
+	case "isZero":
+		v := c.tr(args[0])
+		z := zeroVal(v.T)
+		var cs []string
+		for j := range v.C {
+			if flatten(v.T)[j] == SArr {
+				continue // content of an empty string is irrelevant
+			}
+			cs = append(cs, eq(v.C[j], z.C[j]))
+		}
+		return bval(and(cs...))
+	case "nextRef":
+		return ival(c.E.heapKey(c.St, "alloc", SInt))
+	case "hasKey":
+		m := c.tr(args[0])
+		mt := m.T.Underlying().(*types.Map)
+		var kv Val
+		if l, ok := litOf(args[1]); ok {
+			kv = strLit(l)
+		} else {
+			kv = c.tr(args[1])
+		}
+		has, _ := c.E.mapGet(c.St, mt, m.C[0], mapKeyId(c.E, mt.Key(), kv))
+		return bval(has)
 	case "same":
 		a, b := c.tr(args[0]), c.tr(args[1])
 		if len(a.C) != len(b.C) {
@@ -520,4 +574,77 @@ func (c *Ctx) trCall(x *ast.CallExpr) Val {
 	}
 	c.fail(x, "unknown function %s", name)
 	return Val{}
+}
+
+// firstOffset finds O in the first "(select X (+ O k))" of body, O not mentioning k.
+func firstOffset(body, k string) (string, bool) {
+	key := " " + k + ")"
+	idx := 0
+	for {
+		i := strings.Index(body[idx:], key)
+		if i < 0 {
+			return "", false
+		}
+		i += idx
+		// walk back to the matching "(+ "
+		depth := 0
+		j := i
+		for j >= 0 {
+			if body[j] == ')' {
+				depth++
+			} else if body[j] == '(' {
+				if depth == 0 {
+					break
+				}
+				depth--
+			}
+			j--
+		}
+		if j >= 0 && strings.HasPrefix(body[j:], "(+ ") {
+			off := body[j+3 : i]
+			if balanced(off) && !containsWord(off, k) && off != "" {
+				// must be the index of a select: "(select X (+ O k))"
+				pre := strings.TrimRight(body[:j], " ")
+				if strings.Contains(pre[max(0, len(pre)-200):], "(select ") {
+					return off, true
+				}
+			}
+		}
+		idx = i + len(key)
+	}
+}
+
+func containsWord(s, w string) bool {
+	return replaceWord(s, w, "\x00") != s
+}
+
+// replaceWord replaces whole-token occurrences of w (delimited by space or parens).
+func replaceWord(s, w, by string) string {
+	var b strings.Builder
+	i := 0
+	for i < len(s) {
+		j := strings.Index(s[i:], w)
+		if j < 0 {
+			b.WriteString(s[i:])
+			break
+		}
+		j += i
+		before := j == 0 || s[j-1] == ' ' || s[j-1] == '('
+		after := j+len(w) == len(s) || s[j+len(w)] == ' ' || s[j+len(w)] == ')'
+		b.WriteString(s[i:j])
+		if before && after {
+			b.WriteString(by)
+		} else {
+			b.WriteString(w)
+		}
+		i = j + len(w)
+	}
+	return b.String()
+}
+
+func max(a, b int) int {
+	if a > b {
+		return a
+	}
+	return b
 }
